@@ -38,6 +38,10 @@ structure NotifCfg where
   fallback : List String
   /-- `a` auto-accept, `y`/`n` the user accepts/rejects -/
   mode : Char
+  /-- `with_sync_channel_size` / `with_async_channel_size` / `with_dialing_enabled` (`none` = not called) -/
+  sync : Option Nat := some 64
+  async : Option Nat := some 64
+  dial : Option Bool := none
   deriving DecidableEq, Repr, Inhabited
 
 /-- `request_response::ConfigBuilder`. -/
@@ -55,16 +59,34 @@ structure UserCfg where
   codec : Codec
   deriving DecidableEq, Repr, Inhabited
 
-/-- `kademlia::ConfigBuilder`: `with_protocol_names` (empty = not called), `with_max_message_size`. -/
+/-- The other setters of `kademlia::ConfigBuilder` (`src/protocol/libp2p/kademlia/config.rs`), durations in ms,
+`true` = `Automatic`. -/
+inductive KadSet where
+  | replication (n : Nat) | recordTtl (ms : Nat) | updateMode (auto : Bool) | validationMode (auto : Bool)
+  | maxRecords (n : Nat) | maxRecordSize (n : Nat) | maxProviderKeys (n : Nat) | maxProviderAddresses (n : Nat)
+  | maxProvidersPerKey (n : Nat) | providerRefresh (ms : Nat) | providerTtl (ms : Nat)
+  deriving DecidableEq, Repr, Inhabited
+
+/-- `kademlia::ConfigBuilder`: `with_protocol_names` (empty = not called), `with_max_message_size`, then the other
+setters in call order. -/
 structure KadCfg where
   names : List String
   max : Option Nat
+  sets : List KadSet := []
+  deriving DecidableEq, Repr, Inhabited
+
+/-- Fields of `tcp::config::Config` the user sets before `with_tcp` (durations in ms). -/
+inductive TcpSet where
+  | nodelay (b : Bool) | reusePort (b : Bool) | readAhead (n : Nat) | writeBuffer (n : Nat)
+  | connectionOpen (ms : Nat) | substreamOpen (ms : Nat) | yamuxStreams (n : Nat) | parallelDials (n : Nat)
   deriving DecidableEq, Repr, Inhabited
 
 /-- An address given for a peer: the peer's listen address `k` with its peer id (`l`), without peer id (`n`), with a
 foreign peer id (`w`), a closed TCP port with its peer id (`x`), a QUIC address (`q`). -/
 inductive AddrKind where
   | listen (k : Nat) | noPeer (k : Nat) | wrongPeer (k : Nat) | closed | quic
+  /-- `/ip4/127.0.0.1/tcp/<k>` (closed port `k` ≥ 2) and `/dns4/127.0.0.1/tcp/<k>`, with the peer's id -/
+  | closedPort (k : Nat) | dns (k : Nat)
   deriving DecidableEq, Repr, Inhabited
 
 /-- The calls made on `ConfigBuilder` (`None` = the setter was not called). -/
@@ -85,6 +107,14 @@ structure Config where
   /-- `with_known_addresses` (replaces the list) -/
   known : Option (List (Nat × List AddrKind)) := none
   customExecutor : Bool := false
+  /-- `with_max_parallel_dials` -/
+  maxParallelDials : Option Nat := none
+  tcpSets : List TcpSet := []
+  /-- `ping::ConfigBuilder::with_max_failure` -/
+  pingFailures : Option Nat := none
+  /-- `identify::Config::new(protocol_version, user_agent)` -/
+  idVersion : String := "/verif/1"
+  idAgent : Option String := some "verif"
   deriving DecidableEq, Repr, Inhabited
 
 def pingName : String := "/ipfs/ping/1.0.0"
@@ -120,6 +150,11 @@ structure Built where
   bitswap : Bool
   known : List (Nat × List AddrKind)
   customExecutor : Bool
+  maxParallelDials : Nat := Consts.NODE_MAX_PARALLEL_DIALS
+  tcpSets : List TcpSet := []
+  pingFailures : Option Nat := none
+  idVersion : String := "/verif/1"
+  idAgent : Option String := some "verif"
   deriving DecidableEq, Repr, Inhabited
 
 def build (c : Config) : Built :=
@@ -135,7 +170,13 @@ def build (c : Config) : Built :=
     identify := c.identify
     bitswap := c.bitswap
     known := c.known.getD []
-    customExecutor := c.customExecutor }
+    customExecutor := c.customExecutor
+    -- `self.max_parallel_dials = max_parallel_dials.max(1)`
+    maxParallelDials := (c.maxParallelDials.map (max · 1)).getD Consts.NODE_MAX_PARALLEL_DIALS
+    tcpSets := c.tcpSets
+    pingFailures := c.pingFailures
+    idVersion := c.idVersion
+    idAgent := c.idAgent }
 
 /-! ## `Litep2p::new` -/
 
@@ -184,6 +225,8 @@ def Registration.claims (r : Registration) : List String := r.name :: r.fallback
 def AddrKind.stored : AddrKind → Bool
   | .listen _ => true
   | .closed => true
+  | .closedPort _ => true
+  | .dns _ => true
   | _ => false
 
 /-- A node after `Litep2p::new`. -/
@@ -224,5 +267,118 @@ def wire (b : Built) : NewResult :=
 
 /-- `Litep2p::new(ConfigBuilder…build())`. -/
 def new (c : Config) : NewResult := wire (build c)
+
+/-! ## What the constructed protocol objects and the transport hold
+
+Every protocol `Config` builder hands its settings to the protocol object `Litep2p::new` constructs inside the event-loop
+future (`NotificationProtocol::new`, `RequestResponseProtocol::new`, `Ping::new`, `Kademlia::new` → `MemoryStore::with_config`,
+`QueryEngine::new`, `Identify::new`, `Bitswap::new`); the TCP transport keeps the user's `tcp::config::Config` with
+`max_parallel_dials` overwritten by the top-level setting. The adapter prints what the CONSTRUCTED objects hold (guarded notes
+at the start of each event loop; `TcpTransport::verif_config`). -/
+
+/-- `MemoryStoreConfig` (`kademlia/store.rs`). -/
+structure KadStore where
+  maxRecords : Nat := Consts.NODE_KAD_MAX_RECORDS
+  maxRecordSize : Nat := Consts.NODE_KAD_MAX_RECORD_SIZE
+  maxProviderKeys : Nat := Consts.NODE_KAD_MAX_PROVIDER_KEYS
+  maxProviderAddresses : Nat := Consts.NODE_KAD_MAX_PROVIDER_ADDRESSES
+  maxProvidersPerKey : Nat := Consts.NODE_KAD_MAX_PROVIDERS_PER_KEY
+  providerRefreshMs : Nat := 1000 * Consts.NODE_KAD_PROVIDER_REFRESH_SECS
+  providerTtlMs : Nat := 1000 * Consts.NODE_KAD_PROVIDER_TTL_SECS
+  deriving DecidableEq, Repr, Inhabited
+
+/-- What `Kademlia` holds: `kademlia::ConfigBuilder::new()` … `build()` → `Config::new` → `Kademlia::new`. -/
+structure KadHeld where
+  replication : Nat := Consts.NODE_KAD_REPLICATION_FACTOR
+  recordTtlMs : Nat := 1000 * Consts.NODE_KAD_DEFAULT_TTL_SECS
+  updateAuto : Bool := true
+  validationAuto : Bool := true
+  store : KadStore := {}
+  deriving DecidableEq, Repr, Inhabited
+
+/-- One setter call. -/
+def KadSet.apply (h : KadHeld) : KadSet → KadHeld
+  | .replication n => { h with replication := n }
+  | .recordTtl ms => { h with recordTtlMs := ms }
+  | .updateMode a => { h with updateAuto := a }
+  | .validationMode a => { h with validationAuto := a }
+  | .maxRecords n => { h with store := { h.store with maxRecords := n } }
+  | .maxRecordSize n => { h with store := { h.store with maxRecordSize := n } }
+  | .maxProviderKeys n => { h with store := { h.store with maxProviderKeys := n } }
+  | .maxProviderAddresses n => { h with store := { h.store with maxProviderAddresses := n } }
+  | .maxProvidersPerKey n => { h with store := { h.store with maxProvidersPerKey := n } }
+  | .providerRefresh ms => { h with store := { h.store with providerRefreshMs := ms } }
+  | .providerTtl ms => { h with store := { h.store with providerTtlMs := ms } }
+
+/-- `ConfigBuilder::new()`, the setters in call order, `build()` (which passes every field on unchanged). -/
+def kadBuild (sets : List KadSet) : KadHeld := sets.foldl KadSet.apply {}
+
+/-- What the TCP transport holds. -/
+structure TcpHeld where
+  maxParallelDials : Nat := Consts.NODE_MAX_PARALLEL_DIALS
+  reusePort : Bool := true
+  nodelay : Bool := false
+  readAhead : Nat := Consts.NODE_NOISE_READ_AHEAD
+  writeBuffer : Nat := Consts.NODE_NOISE_WRITE_BUFFER
+  connectionOpenMs : Nat := 1000 * Consts.NODE_CONNECTION_OPEN_TIMEOUT_SECS
+  substreamOpenMs : Nat := 1000 * Consts.NODE_SUBSTREAM_OPEN_TIMEOUT_SECS
+  /-- `yamux::Config::default()` of the yamux crate allows 512 streams -/
+  yamuxStreams : Nat := 512
+  deriving DecidableEq, Repr, Inhabited
+
+def TcpSet.apply (h : TcpHeld) : TcpSet → TcpHeld
+  | .nodelay b => { h with nodelay := b }
+  | .reusePort b => { h with reusePort := b }
+  | .readAhead n => { h with readAhead := n }
+  | .writeBuffer n => { h with writeBuffer := n }
+  | .connectionOpen ms => { h with connectionOpenMs := ms }
+  | .substreamOpen ms => { h with substreamOpenMs := ms }
+  | .yamuxStreams n => { h with yamuxStreams := n }
+  | .parallelDials n => { h with maxParallelDials := n }
+
+/-- `Litep2p::new`: `config.max_parallel_dials = litep2p_config.max_parallel_dials`, then `TcpTransport::new`. -/
+def tcpHeld (b : Built) : TcpHeld :=
+  { b.tcpSets.foldl TcpSet.apply {} with maxParallelDials := b.maxParallelDials }
+
+/-- `DEFAULT_AGENT` (`identify.rs`). -/
+def defaultAgent : String := String.ofList (Consts.IDENTIFY_DEFAULT_AGENT.map Char.ofNat)
+
+/-- What one constructed protocol object holds. -/
+inductive Note where
+  | notif (name : String) (sync async : Nat) (autoAccept dial : Bool) (handshake : String)
+  | rr (name : String) (timeoutMs : Nat) (maxInbound : Option Nat)
+  | ping (intervalMs maxFailures : Nat)
+  | kad (h : KadHeld)
+  | identify (version agent : String)
+  | bitswap
+  deriving DecidableEq, Repr, Inhabited
+
+/-- The protocol objects constructed by `Litep2p::new`, in its order. -/
+def notes (b : Built) : List Note :=
+  b.notif.map (fun p => .notif p.name (p.sync.getD Consts.NODE_NOTIF_SYNC_CHANNEL_SIZE)
+    (p.async.getD Consts.NODE_NOTIF_ASYNC_CHANNEL_SIZE) (p.mode == 'a') (p.dial.getD true) p.handshake) ++
+  b.rr.map (fun p => .rr p.name p.timeoutMs p.maxInbound) ++
+  (match b.ping with
+   | some ms => [.ping (if ms = 1 then 1000 * Consts.NODE_PING_INTERVAL_SECS else ms)
+                   (b.pingFailures.getD Consts.NODE_PING_MAX_FAILURES)]
+   | none => []) ++
+  b.kad.map (fun k => .kad (kadBuild k.sets)) ++
+  (if b.identify then [.identify b.idVersion (b.idAgent.getD defaultAgent)] else []) ++
+  (if b.bitswap then [.bitswap] else [])
+
+/-! ## `ProtocolSet` (`src/protocol/protocol_set.rs`): what a connection answers for a negotiated name -/
+
+/-- `ProtocolSet::new`: the `fallback_names` map (fallback name → main name). -/
+def fallbackOwner (regs : List Registration) (n : String) : Option String :=
+  (regs.find? (fun r => r.fallback.contains n)).map (·.name)
+
+/-- `ProtocolSet::protocol_codec`: `protocols.get(fallback_names.get(name).unwrap_or(name)).expect(..).codec`
+(`none` = the `expect` panics). -/
+def protocolCodec (regs : List Registration) (n : String) : Option Codec :=
+  (regs.find? (fun r => r.name = (fallbackOwner regs n).getD n)).map (·.codec)
+
+/-- `ProtocolSet::new`: the `keep_alives` map (main names, then fallback names with their main protocol's setting). -/
+def nameKeepAlive (regs : List Registration) (n : String) : Option Bool :=
+  (regs.find? (fun r => r.name = (fallbackOwner regs n).getD n)).map (·.keepAlive)
 
 end Litep2pVerif.Node
